@@ -91,9 +91,12 @@ theorem srv_fold_pairs (ps : List (Bytes × Bytes)) (sc : SrvScan)
 def hScheme : Bytes := asciiBytes ":scheme"
 def hTe : Bytes := asciiBytes "te"
 
-/-- what the transport itself contributes to the handler's metadata -/
+/-- what the transport itself contributes to the handler's metadata: :authority, content-type
+    (F17), user-agent and — when compressors are registered in the client process —
+    grpc-accept-encoding (F30) -/
 def baseMD (c : CallCfg) : MD :=
-  [(hAuthority, [c.authority]), (hContentType, [contentTypeOf c.subtype]), (hUserAgent, [c.userAgent])]
+  [(hAuthority, [c.authority]), (hContentType, [contentTypeOf c.subtype]), (hUserAgent, [c.userAgent])] ++
+  (if c.acceptEncoding.isEmpty then [] else [(hAcceptEncoding, [c.acceptEncoding])])
 
 /-- The server's state after the fixed fields the client transport writes first. -/
 theorem srv_base (c : CallCfg) :
@@ -104,8 +107,9 @@ theorem srv_base (c : CallCfg) :
   have d2 : decodeMetadataHeader hUserAgent c.userAgent = some c.userAgent := by
     simp [decodeMetadataHeader, show isBinKey hUserAgent = false by decide]
   have b : baseFields c = [(hMethod, asciiBytes "POST"), (hScheme, c.scheme), (hPath, c.path), (hAuthority, c.authority),
-      (hContentType, contentTypeOf c.subtype), (hUserAgent, c.userAgent), (hTe, asciiBytes "trailers")] := rfl
-  rw [b]
+      (hContentType, contentTypeOf c.subtype), (hUserAgent, c.userAgent), (hTe, asciiBytes "trailers")] ++
+      (if c.acceptEncoding.isEmpty then [] else [(hAcceptEncoding, c.acceptEncoding)]) := rfl
+  rw [b, List.foldl_append]
   simp only [List.foldl_cons, List.foldl_nil]
   have e1 : srvField {} (hMethod, asciiBytes "POST") = { httpMethod := asciiBytes "POST" } := by
     simp [srvField, show hMethod ≠ hContentType by decide, show hMethod ≠ hAcceptEncoding by decide,
@@ -144,8 +148,15 @@ theorem srv_base (c : CallCfg) :
       show hTe ≠ hPath by decide, show hTe ≠ hTimeout by decide,
       show hTe ≠ hConnection by decide, show isReservedHeader hTe = true by decide,
       show isWhitelistedHeader hTe = false by decide]
+  have e8 : ∀ sc : SrvScan, srvField sc (hAcceptEncoding, c.acceptEncoding) = { sc with mdata := mdAppend sc.mdata hAcceptEncoding c.acceptEncoding } := by
+    intro sc
+    simp [srvField, show hAcceptEncoding ≠ hContentType by decide]
   rw [e2, e3, e4, e5, e6, e7]
-  simp [baseMD, mdAppend, show hAuthority ≠ hContentType by decide, show hAuthority ≠ hUserAgent by decide, show hContentType ≠ hUserAgent by decide]
+  by_cases hae : c.acceptEncoding.isEmpty = true
+  · simp [hae, baseMD, mdAppend, show hAuthority ≠ hContentType by decide, show hAuthority ≠ hUserAgent by decide, show hContentType ≠ hUserAgent by decide]
+  · simp only [hae, Bool.false_eq_true, if_false, List.foldl_cons, List.foldl_nil, e8]
+    simp [baseMD, hae, mdAppend, show hAuthority ≠ hContentType by decide, show hAuthority ≠ hUserAgent by decide, show hContentType ≠ hUserAgent by decide,
+      show hAuthority ≠ hAcceptEncoding by decide, show hContentType ≠ hAcceptEncoding by decide, show hUserAgent ≠ hAcceptEncoding by decide]
 
 theorem mdGet_mdDelete (md : MD) (k key : Bytes) :
     mdGet (mdDelete md k) key = if k = key then [] else mdGet md key := by
@@ -195,17 +206,21 @@ theorem md_roundtrip (c : CallCfg) (md : MD) (added : List (Bytes × Bytes))
     simp only [List.foldl_append, srv_base, userFields_eq]
     rw [e1]
     have ha : mdGet md' hAuthority = [c.authority] := by
-      rw [g1, valsFor_nil_of_reserved _ hnr _ res_authority]; simp [baseMD, mdGet]
+      rw [g1, valsFor_nil_of_reserved _ hnr _ res_authority]
+      by_cases hae : c.acceptEncoding.isEmpty = true <;> simp [baseMD, mdGet, hae, show hContentType ≠ hAuthority by decide,
+        show hUserAgent ≠ hAuthority by decide, show hAcceptEncoding ≠ hAuthority by decide]
     have hh : mdGet md' hHost = [] := by
       rw [g1, valsFor_nil_of_absent _ _ (fun p hp => (hs p hp).2)]
-      simp [baseMD, mdGet, show hAuthority ≠ hHost by decide, show hContentType ≠ hHost by decide, show hUserAgent ≠ hHost by decide]
+      by_cases hae : c.acceptEncoding.isEmpty = true <;> simp [baseMD, mdGet, hae, show hAuthority ≠ hHost by decide,
+        show hContentType ≠ hHost by decide, show hUserAgent ≠ hHost by decide, show hAcceptEncoding ≠ hHost by decide]
     simp [ha, hh]
   · intro key
     rw [mdGet_mdDelete]
     split
     · rename_i e; subst e
       rw [valsFor_nil_of_absent _ _ (fun p hp => (hs p hp).2)]
-      simp [baseMD, mdGet, show hAuthority ≠ hHost by decide, show hContentType ≠ hHost by decide, show hUserAgent ≠ hHost by decide]
+      by_cases hae : c.acceptEncoding.isEmpty = true <;> simp [baseMD, mdGet, hae, show hAuthority ≠ hHost by decide,
+        show hContentType ≠ hHost by decide, show hUserAgent ≠ hHost by decide, show hAcceptEncoding ≠ hHost by decide]
     · exact g1 key
 
 /-- A name may appear in user-visible metadata: not reserved, or whitelisted, or (finding F17)
